@@ -52,7 +52,10 @@ pub fn exec(f: u32, args: &Args) -> Args {
 /// the implementation's own output for this case.
 pub fn oracle(f: u32, args: &Args, out: &Args) -> Option<(&'static str, String)> {
     if out.len() == 1 && out[0] == vec![crate::PANIC] {
-        return Some(("C11", format!("panic in function {}", f)));
+        // a panic while admitting a request or answering the accessors of an admitted one is also a
+        // failure of the admission rule (C18); everywhere it is a failure of totality (C11)
+        let who = if (520..530).contains(&f) { "C11+C18+C02" } else { "C11" };
+        return Some((who, format!("panic in function {}", f)));
     }
     // C11: a decoder allocates no more than a fixed bound beyond (a multiple of) the input size.
     // Measured over the whole execution of the case, harness bookkeeping included, which is why the
